@@ -433,6 +433,11 @@ func (fr *Frame) loopHead(li *loopInfo, st *State, reach *Term, preds []*ssa.Bas
 			c.sc.assert(tImp(reach, fc))
 		}
 	}
+	for _, cl := range c.protect {
+		if pc, _, err := c.protectCond(cl, st, c.entry, c.keys["$clk"].init, ks); err == nil && pc != nil {
+			c.sc.assert(tImp(reach, pc))
+		}
+	}
 	// facts about never-reassigned package variables (error sentinels, constant slices) hold in every state
 	for _, k := range ks {
 		if strings.HasPrefix(k, "P:") || strings.Contains(k, "RFC6749Error") {
@@ -492,6 +497,16 @@ func (fr *Frame) backEdgeCheck(p, h *ssa.BasicBlock, st *State, guard *Term) {
 		if fc, names := c.frameCond(st, ks); fc != nil {
 			c.addObl(fr, &Obligation{Kind: "frame-heap", Site: fmt.Sprintf("loop#%d.step(b%d)", li.ordinal, p.Index),
 				Clause: "loop body keeps the function's heap frame (written: " + strings.Join(names, ", ") + ")", Guard: guard, Goal: fc})
+		}
+	}
+	for _, cl := range c.protect {
+		var ks []string
+		for k := range c.loopW[id] {
+			ks = append(ks, k)
+		}
+		if pc, names, err := c.protectCond(cl, st, c.entry, c.keys["$clk"].init, ks); err == nil && pc != nil {
+			c.addObl(fr, &Obligation{Label: cl.Label, Pending: cl.Pending, Kind: "protects", Site: fmt.Sprintf("loop#%d.step(b%d)", li.ordinal, p.Index), Pos: cl.Pos,
+				Clause: cl.Text + "  (loop body; written: " + strings.Join(names, ", ") + ")", Guard: guard, Goal: pc})
 		}
 	}
 	over := map[ssa.Value]*Val{}
